@@ -4,6 +4,12 @@ NOTES = ("Runtime monitoring only: every verdict is 'held on the executions obse
          "Known genuine defects are listed in known_findings.json and printed as KNOWN-FINDING lines.")
 NOT_APPLICABLE = {}
 CHECKS = {
+ "C03": dict(level="exploration", technique="law monitor over all pairs/triples of a value pool + content equality known by construction; symbol re-interning churn under seeded GC schedules",
+             text="Pools of ~60 values, each known by content and built by several routes (every/random insertion order, slices, freeze, table/to-struct, marshal round trip, nil-padded/duplicate-key struct calls) with key sets chosen to collide modulo struct capacity (hashes measured from the binary); janet evaluates =, hash, compare, < <= > >= on all pairs; Python checks reflexivity, symmetry, transitivity (all triples), =>hash, antisymmetry, compare=0 iff =, relational/compare agreement, = vs content, identity types, verif/table-check of every struct. Second phase: thousands of symbols/keywords created, partly dropped, collected, re-interned by bytes and required identical to the live originals.",
+             note="Content equality decided in Python by canonical text; NaN excluded. Held on the pools generated."),
+ "C12": dict(level="exploration", technique="differential oracle: independent reference PEG interpreter with immutable capture state vs peg/match on ASan+UBSan build; derived entry points checked by repeated matching",
+             text="Random grammars over every combinator (depth<=5), biased to failing alternatives that already captured; each (grammar,text,start,args) run as source grammar, compiled peg and marshal-round-tripped peg and compared with vf/model_peg.py (position/nil, captures, raised error); peg/find, find-all, replace, replace-all compared with their definition by repeated matching; AddressSanitizer watches for reads outside the text.",
+             note="Reference semantics written from the combinator documentation; if-conditions and look bodies are generated capture-free; only string/int/keyword captures inside accumulate."),
  "C14": dict(level="exploration", technique="differential oracle: Python big-int/IEEE float reference for every (operator, operand pair, type mix, order); crash bisection",
              text="~2.3e5 (quick) / 8e6 (thorough) operator applications over boundary-dense operands in all type mixes (number, int/s64, int/u64, numeric string), function and :method forms, compared with an exact reference implementing the documented conventions (wrap, truncating /, flooring div/mod, mod-by-zero, error on zero division and on operands that do not fit, polymorphic compare over the whole range). A batch that dies is bisected to the killing input.",
              note="Trusts Python arithmetic. C-undefined shift counts and INT64_MIN/-1 wrap-or-raise are out of scope by statement. Held only on generated operands."),
